@@ -17,6 +17,9 @@ CHECKS = {
  "C04": dict(engine="integ", technique="model-based property testing (Hypothesis-generated trigger scripts and state histories, reference evaluator on structured expressions, both decorator subsystems)",
    text="Exploration: Hypothesis-generated scripts (1-3 functions x 1-2 @state_trigger decorators with any-change forms, expressions over 3 entities x 2 attributes incl. .old, int() casts, and/or/not, undefined names, list arguments, watch=, kwargs overrides) and histories of settled operations and bursts, executed in the real integration under both subsystems; per decorator the ordered list of runs and their var_name/value/old_value/kwargs is compared with a reference model (dict state machine + CPython evaluation of the structured expression). 1.6k cases quick, 40k thorough.",
    note="Trusts Home Assistant's state machine; names outside watch= and .old of a non-changed entity are outside the documented contract and restricted as stated in the evidence assumptions; deviations for unlisted undefined names under watch= are attributed to the open finding C04-watch-unlisted-undefined-raises by a model variant that must reproduce the observed history exactly.", ref="2.C04"),
+ "C06": dict(engine="integ", technique="property-based testing of the successor function against an independent calendar enumerator plus metamorphic successor laws; model-based run-loop check on a virtual clock",
+   text="Exploration: (A) 12k (quick) / 600k (thorough) Hypothesis-generated (specification list, current time) pairs - structured once/period/cron specifications rendered to text, current times biased to denoted instants +/- 1 us, leap day, month/year ends and US/Pacific transition days - where TrigTime.timer_trigger_next must equal the least denoted instant after now computed by an independent enumerator that never parses the string, and satisfy successor laws (strictly later, idempotence, no skip, list = minimum, real elapsed time for cron across DST); (B) 192 / 6400 run-loop cases where a @time_trigger function on the virtual clock must run exactly once per denoted instant with trigger_time equal to it, startup/shutdown once, in both subsystems.",
+   note="Trusts astral sun times from Home Assistant and zoneinfo; weekday/today/tomorrow dates are only covered by the laws; nonexistent local times (spring-forward hour) are not used as current time; croniter's mis-reading of degenerate ranges a-a is third-party and not generated.", ref="2.C06"),
 }
 NOT_YET = "check not built yet in this round (see DESIGN.md section 2 for the plan)"
 props = [json.loads(l)["id"] for l in open(os.path.join(V, "properties.jsonl"))]
